@@ -1,11 +1,60 @@
 """Driver: harness/check <Cnn> [--tier quick|thorough] [--replay file]."""
 import argparse
 import importlib
+import json
 import os
+import re
+import subprocess
 import sys
+import time
 import traceback
 
 import common
+
+
+def escalate(res, pid, drift):
+  """Drift sentinel: the anchored source differs from what the models were validated against.  Not a verdict;
+  the quick tier explores more: extra passes of the same check under other seeds (sub-processes), stopping at the
+  first pass that finds a violation.  Their obligations, violations and counts are merged into this run."""
+  n_extra = int(os.environ.get("VERIF_ESCALATION_PASSES", "2"))
+  info = {"changed_files": drift, "extra_passes": []}
+  res.extra["drift_sentinel"] = info
+  wrapper = os.path.join(common.VERIF, "harness", "check")
+  for k in range(1, n_extra + 1):
+    if any(v["found_input"] for v in res.violations):
+      break
+    env = dict(os.environ, VERIF_SEED=str(res.seed + 7919 * k), VERIF_ESCALATION_PASS=str(k))
+    t0 = time.time()
+    p = subprocess.run([wrapper, pid, "--tier", "quick"], env=env, capture_output=True, text=True)
+    out = p.stdout + p.stderr
+    rec = {"pass": k, "seed": env["VERIF_SEED"], "exit": p.returncode, "wall_s": round(time.time() - t0, 1)}
+    try:
+      ev = json.load(open(os.path.join(common.BUILD, "evidence_pass%d" % k, pid + ".json")))
+      cov = ev["coverage"]
+      res.evaluations += cov.get("evaluations", 0)
+      rec["evaluations"] = cov.get("evaluations", 0)
+      for o in cov.get("obligation_list", []):
+        if not o["ok"]:
+          res.obligation("pass%d:%s" % (k, o["name"]), False, o.get("detail", ""))
+    except Exception as e:  # the extra pass left no evidence: it is itself an undischarged obligation
+      res.obligation("pass%d:evidence" % k, False, "%s; output tail: %s" % (e, out[-1500:]))
+    for m in re.finditer(r"^KNOWN-FINDING: property=\S+ (.*)$", out, re.M):
+      rest = m.group(1)
+      fps = [fp for fp in res.known if rest.startswith(fp + ": ")]
+      if fps:
+        fp = max(fps, key=len)
+        res.known_hits.setdefault(fp, rest[len(fp) + 2:])
+    for m in re.finditer(r"^VIOLATION property=\S+ replay=(\S+)( no-failing-input-found)?$", out, re.M):
+      path, nofound = m.group(1), bool(m.group(2))
+      if nofound:
+        continue  # merged through the failed obligations above
+      try:
+        d = json.load(open(path))
+      except Exception:  # pylint: disable=broad-except
+        d = {}
+      res.violations.append({"fingerprint": d.get("fingerprint", "pass%d" % k), "what": d.get("what", ""),
+                             "replay": path, "found_input": True})
+    info["extra_passes"].append(rec)
 
 
 def main():
@@ -22,7 +71,15 @@ def main():
     mod = importlib.import_module(pid.lower())
     if args.replay:
       return mod.replay(res, args.replay)
+    drift = None
+    if args.tier == "quick" and not os.environ.get("VERIF_ESCALATION_PASS") and os.environ.get("VERIF_NO_ESCALATE") != "1":
+      drift = common.source_drift(pid)
     level = mod.run(res) or "proof"
+    if drift:
+      common.log("[%s] drift sentinel: anchored source changed (%s); running extra passes" % (pid, ", ".join(drift[:5])))
+      escalate(res, pid, drift)
+    elif drift is not None:
+      res.extra["drift_sentinel"] = {"changed_files": [], "extra_passes": []}
   except common.BuildError as e:
     res.obligation("build", False, str(e))
     level = "proof"
